@@ -28,9 +28,11 @@ theorem C10_heap_lemma (h : Array Req) (hh : HeapN rkey h h.size) :
 theorem C10_heap_invariant (qcap : Nat → Nat) (acts : List Act) :
     HeapN rkey (run qcap acts).heap (run qcap acts).heap.size := (invA_run qcap acts).heapOk
 
-/-- Never early (no proviso): a request is placed on its queue only at an instant ≥ its deadline. -/
+/-- Never early (no proviso): a request is placed on its queue only at an instant ≥ its deadline (and, for negative
+    delays, not before it was issued). -/
 theorem C10_not_early (qcap : Nat → Nat) (acts : List Act) :
-    ∀ x ∈ (run qcap acts).forwarded, x.1.trigger ≤ (x.2 : Int) := fun x hx => ((invA_run qcap acts).fwdOk x hx).1
+    ∀ x ∈ (run qcap acts).forwarded, x.1.trigger ≤ (x.2 : Int) ∧ x.1.sent ≤ x.2 :=
+  fun x hx => ⟨((invA_run qcap acts).fwdOk x hx).1, ((invA_run qcap acts).fwdOk x hx).2.2⟩
 
 /-- Less than one tick late.  While the loop was never blocked on a full target queue, a request is placed on its
     queue at a tick instant `t` (a multiple of the period) that is less than one tick after max(deadline, issue
